@@ -15,14 +15,19 @@ from fjv.common import Report
 
 
 def replay(path: str) -> int:
-    from fjv.llsx import native_replay
-    return native_replay.replay(json.loads(open(path).read()))
+    from fjv.llsx import native_replay, c07_storage
+    case = json.loads(open(path).read())
+    if case.get('storage_kind'):
+        return c07_storage.replay(case)
+    return native_replay.replay(case)
 
 
 def run(report: Report, tier: str, only: Optional[str] = None) -> None:
-    from fjv.llsx import c01_native
-    report.outside += ['the API entry points (Memory_init / add_segment / set_word(s) / get_word / run prologue / dealloc) and '
-                       'mem_decide_storage: not encoded in this revision', 'CPython itself, libc', 'stack exhaustion', 'thread safety']
+    from fjv.llsx import c01_native, c07_storage
+    report.outside += ['Memory_dealloc / the Memory_run prologue (build_run_result, ring allocation): not encoded in this revision',
+                       'a sequence passed to set_words whose __getitem__ re-enters the Memory object (hostile caller of a private type)',
+                       'CPython itself, libc', 'stack exhaustion', 'thread safety']
     report.assumptions += ['object/offset memory model of fjv/llsx/interp.py (out-of-bounds pointer formation without access is not flagged)',
                            'z3 5.1.0']
     c01_native.run(report, tier, only, prop='C11')
+    c07_storage.run(report, tier, only, prop='C11')
